@@ -752,6 +752,11 @@ qb_vsnprintf_deserialize(char *string, size_t str_len, const char *buf)
 		fmt[fmt_pos++] = *format;
 		format++;
 reprocess:
+		if (fmt_pos > MINI_FORMAT_STR_LEN - 3) {
+			/* the conversion does not fit into fmt[]: stop here */
+			string[location] = '\0';
+			return location + 1;
+		}
 		switch (format[0]) {
 		case '#': /* alternate form conversion, ignore */
 		case '-': /* left adjust, ignore */
